@@ -20,6 +20,15 @@ C['C15'] = ("proof", "Lean: the masker (transcription of both URI regexes, tied 
 C['C16'] = ("proof", "Lean theorems C16_only_allowed / C16_lockdown / C16_histogram_shape hold for every allow decision function and every metric batch; the model is tied to bridge.py/config.py by differential runs of the real export() (synthetic and real-SDK batches) on every invocation.",
             "OTel SDK objects flattened by harness; fnmatch transcribed and differential-tested",
             "Lean 4 proof (fold invariant) + differential correspondence")
+C['C05'] = ("proof", "Lean theorems: the publish decision of a non-balanced sender is a function of the synchronised clients only (C05_decision_formula, C05_decision_ignores_eph), an ephemeral request never fast-forwards the sender (C05_eph_request_local), a `??` source is never sent a request (C05_qq_silent), ephemeral takes are local (C05_eph_take_local, C05_sync_take_spares_eph) and a set is returned only when no source is partial (C05_sets_complete); tie = call-by-call comparison of both automata with the real classes; oracle = paired runs of the real sender with and without the ephemeral clients' requests, completeness and order of ephemeral contributions.",
+            "the stuttering simulation (with vs without ephemeral clients at pipeline level) is explored by paired runs, not proved; libzmq replaced by the fake",
+            "Lean 4 proofs about the decision function + differential correspondence + paired-run oracle")
+C['C07'] = ("proof", "Lean theorems C07_rejoin_single_source (for every event sequence a balanced receiver returns sets whose synchronised frames come from ONE source under the returned id; invariants SameId+LockInv+Single proved for every event), C07_rejoin_ordered (ids strictly increase), C07_one_output / C07_output_eligible (every publish of a balanced sender goes to exactly one, eligible, bound output), C07_no_prefetch; tie = call-by-call comparison of both automata with the real classes on adversarial balanced feeds, with the oracle evaluated on the implementation.",
+            "topic names non-empty; libzmq replaced by the fake; no completeness claim for the rejoined stream (the property makes none)",
+            "Lean 4 invariant proofs by induction over events + differential trace correspondence")
+C['C10'] = ("proof", "Lean 4 heap model of Frame (arrays, frames, jpg and ro caches, all 18 operations) with theorems over arbitrary op sequences and every pixel algebra: cached views and jpgs are always current and sit on frozen read-only arrays (C10_inv, C10_cached_view_current, C10_cached_jpg_frozen), views show the source's current pixels (C10_view_shows), promised copies sit on fresh arrays (C10_fresh), read-only never becomes writable (C10_ro_never_rw); tie = differential run of real Frame objects against the compiled model after every step (exhaustive to length 3 quick / 4 thorough + random to 40) plus an independent numpy oracle of the property's clauses.",
+            "a read-only array handed to Frame() has no writable alias; numpy/OpenCV trusted as the pixel algebra (swap, luminance, replication tested each step)",
+            "Lean 4 proof (heap invariant by induction over op sequences) + differential correspondence")
 m = {"version": 1, "setup_cmd": "./setup.sh",
      "hooks": {"guard": "OPENFILTER_VERIF", "enable": "no source hooks are needed: the harness monkey-patches module attributes from outside (zeromq.zmq, time_ns, sleep, Filter.emitter)",
                "baseline_off_cmd": "cd /repo && /venv/bin/python -m pytest -ra -q -p no:cacheprovider --timeout=900 --continue-on-collection-errors", "source_commits": [], "add_only": True},
